@@ -48,7 +48,7 @@ PostOk == LET p == Tr[l].post IN
   /\ Started \subseteq SeqToSet(p.vnew)
   /\ SeqToSet(p.vnew) \subseteq Started \cup InFlight
 
-TExpress == Ev("Express") /\ Express(Tr[l].t, Tr[l].defer) /\ PostOk
+TExpress == Ev("Express") /\ (Express(Tr[l].t, Tr[l].defer) \/ (~Tr[l].defer /\ ExpressNow(Tr[l].t))) /\ PostOk
 TAwait == Ev("Await") /\ Await(Tr[l].e) /\ PostOk
 TExpressDown == Ev("ExpressDown") /\ ExpressDown(Tr[l].t) /\ PostOk
 TRecvData == Ev("RecvData") /\ RecvDataX(Tr[l].d, Tr[l].env, SeqToSet(Tr[l].x)) /\ PostOk
